@@ -63,7 +63,10 @@ Descr(g) ==
   \cup (IF n > 0 /\ g.t # "Point" THEN {<<"drop", <<>>, k>> : k \in 1..n} \cup {<<"empty", <<>>, k>> : k \in 1..n} ELSE {})
   \cup (CASE g.t = "LineString" -> {<<"rev", <<>>, 0>>} \cup (IF Closed(g.c) /\ n >= 4 THEN {<<"rot", <<>>, k>> : k \in 1..(n-2)} \cup {<<"rotrev", <<>>, k>> : k \in 1..(n-2)} ELSE {})
            [] g.t = "Polygon" -> (IF n = 0 THEN {} ELSE {<<"holes", p, 0>> : p \in PermsOf(1..(n-1))} \cup {<<"ringrot", <<>>, k>> : k \in 1..n} \cup {<<"ringsrev", <<>>, 0>>})
-           [] g.t \in {"MultiPoint","MultiLineString","MultiPolygon","GeometryCollection"} -> {<<"perm", p, 0>> : p \in PermsOf(1..n)}
+           [] g.t \in {"MultiPoint","MultiLineString","MultiPolygon","GeometryCollection"} ->
+                {<<"perm", p, 0>> : p \in PermsOf(1..n)}
+                \* member k replaced by a copy of its neighbour: the same members in other multiplicities ({A,B,A} -> {B,B,A})
+                \cup (IF n >= 2 THEN {<<"dup", <<>>, k>> : k \in 1..n} ELSE {})
            [] OTHER -> {})
 Other(ct) == IF ct = "XY" THEN "XYZM" ELSE "XY"
 ForcePt(p, to) == IF p = <<>> THEN p ELSE IF to = "XY" THEN SubSeq(p,1,2) ELSE p \o <<ZeroTok, ZeroTok>>
@@ -84,5 +87,6 @@ Variant(g, d) ==
     [] kind = "ringrot" -> [g EXCEPT !.c[k] = RotRing(g.c[k], 1)]
     [] kind = "ringsrev" -> [g EXCEPT !.c = [i \in 1..n |-> RevSeq(g.c[i])]]
     [] kind = "perm" -> [g EXCEPT !.c = Permute(g.c, p)]
+    [] kind = "dup" -> [g EXCEPT !.c[k] = g.c[(k % n) + 1]]
 \* what the specification expects for the pair (g, Variant(g,d)) is computed by Eq / EqIO themselves
 =============================================================================
